@@ -41,16 +41,16 @@ theorem restart_rebuilds_applied_state (ops : List Op) :
     rw [hr] at hre
     have hr' : resolve s.snaps = some r := hr
     have hre' : replay (some r) s.tail = some s.db := hre
-    simp only [step, hr', hre']
+    simp only [step, restartSM, hr', hre']
     exact ⟨trivial, trivial⟩
 
-/-- Two machines. The leader has any history `lops`; a follower (any history `fops`, no snapshot
-of its own in flight) is sent the leader's newest snapshot — the database it restores to — and
-installs it, then receives the leader's log entries after that snapshot. The follower ends up with
-exactly the leader's applied database, its own newest snapshot restores to what was sent, and
-nothing stale is staged for its next incremental snapshot. -/
-theorem follower_install_then_replay_equals_leader (lops fops : List Op)
-    (hp : (run 3 {} fops).pend = none) :
+/-- Two machines. The leader has any history `lops`; a follower with any history `fops` — also
+one with a local snapshot captured and not yet persisted, which raft does not exclude — is sent the
+leader's newest snapshot (the database it restores to) and installs it, then receives the leader's
+log entries after that snapshot. The follower ends up with exactly the leader's applied database,
+its own newest snapshot restores to what was sent, and nothing stale is staged for its next
+incremental snapshot. -/
+theorem follower_install_then_replay_equals_leader (lops fops : List Op) :
     let L := run 3 {} lops
     ∃ r, resolve L.snaps = some r ∧
       let F := (step 3 (run 3 {} fops) (.install r)).1
@@ -63,9 +63,61 @@ theorem follower_install_then_replay_equals_leader (lops fops : List Op)
     refine ⟨r, rfl, ?_⟩
     have hre := h.restore
     rw [hr] at hre
-    simp only [step, hp, Option.isSome_none, Bool.false_eq_true, if_false]
-    refine ⟨by simp [resolve_snoc, resolveStep], by simp, by simp, ?_⟩
+    have h30 : ¬ ((3 : Nat) = 0) := by decide
+    have h31 : (3 : Nat) ≥ 1 := by decide
+    simp only [step, h30, decide_false, Bool.false_and, Bool.false_eq_true, if_false, h31, if_true]
+    refine ⟨resolve_full_last _ _, trivial, trivial, ?_⟩
     simpa using hre
+
+/-- … and whatever then becomes of the follower's own snapshot that was in flight (installed below
+the leader's, not invoked, failing, or — an incremental whose staged WAL files fsmRestore has
+removed — ending in Sink.Close's fatal exit and a process restart), the follower's newest snapshot
+still restores to what was sent, and it still holds the leader's database: the superseded snapshot
+changes nothing that a restore can see. -/
+theorem superseded_local_snapshot_is_harmless (fops : List Op) (r : C) (o : Outcome) :
+    let F := (step 3 (run 3 {} fops) (.install r)).1
+    let F' := (step 3 F (.snapEnd o)).1
+    resolve F'.snaps = some r ∧ F'.db = r ∧ F'.tail = [] := by
+  intro F F'
+  have hF : ChainInv F := step_inv _ (chain_inv fops) _
+  have h30 : ¬ ((3 : Nat) = 0) := by decide
+  have h31 : (3 : Nat) ≥ 1 := by decide
+  have hsn : F.snaps = (run 3 {} fops).snaps ++ [.full r] := by
+    simp only [F, step, h30, decide_false, Bool.false_and, Bool.false_eq_true, if_false, h31, if_true]
+  have hdb : F.db = r := by
+    simp only [F, step, h30, decide_false, Bool.false_and, Bool.false_eq_true, if_false, h31, if_true]
+  have htl : F.tail = [] := by
+    simp only [F, step, h30, decide_false, Bool.false_and, Bool.false_eq_true, if_false, h31, if_true]
+  have hres : resolve F.snaps = some r := by rw [hsn]; exact resolve_full_last _ _
+  have hpend : F.pend = none ∨ ∃ x, F.pend = some (.stale x) := by
+    simp only [F, step, h30, decide_false, Bool.false_and, Bool.false_eq_true, if_false, h31, if_true]
+    cases (run 3 {} fops).pend with
+    | none => exact Or.inl rfl
+    | some p => cases p <;> exact Or.inr ⟨_, rfl⟩
+  show resolve (snapEnd 3 F o).1.snaps = some r ∧ (snapEnd 3 F o).1.db = r ∧ (snapEnd 3 F o).1.tail = []
+  rcases hpend with hp | ⟨x, hp⟩
+  · simp only [snapEnd, hp]
+    exact ⟨hres, hdb, htl⟩
+  · unfold snapEnd
+    simp only [hp]
+    cases x with
+    | none =>
+      cases o with
+      | ok =>
+        simp only [restartSM, hres, htl, replay, List.foldl_nil]
+        exact ⟨trivial, trivial, trivial⟩
+      | notInvoked => exact ⟨hres, hdb, htl⟩
+      | failBefore => exact ⟨hres, hdb, htl⟩
+      | failAfter => exact ⟨hres, hdb, htl⟩
+    | some a =>
+      cases o with
+      | ok =>
+        refine ⟨?_, hdb, htl⟩
+        show resolve (insertBelowNewest F.snaps (.full a)) = some r
+        rw [hsn, resolve_insertBelow, resolve_full_last]
+      | notInvoked => exact ⟨hres, hdb, htl⟩
+      | failBefore => exact ⟨hres, hdb, htl⟩
+      | failAfter => exact ⟨hres, hdb, htl⟩
 
 /-! ### the defects repaired in /repo, kept as checked counterexamples on the older code levels -/
 
@@ -116,6 +168,20 @@ theorem requirement_survives_without_mtime_guard :
     let h := [Op.write 1, .snapBegin, .load [2], .snapEnd .ok, .write 3]
     (snapBegin 2 { run 2 {} h with modified := false }).2 = "incremental" ∧
     (snapBegin 3 { run 3 {} h with modified := false }).2 = "full" := by decide
+
+/-- Not a violation of this property, but a consequence of `fix:` 6482ad3 worth knowing: a snapshot
+from the leader installed between a follower's FSM.Snapshot() of an INCREMENTAL snapshot and its
+Persist+Close makes that Close fail on the removed staging directory, which is the sink's fatal
+exit; the process restarts and holds the leader's database (before 6482ad3 the stale WAL was
+installed as an incremental below the leader's snapshot instead). -/
+def installDuringIncremental : List Op :=
+  [.write 1, .snapshot .ok, .write 2, .snapBegin, .noop, .install [9], .snapEnd .ok]
+
+theorem install_during_incremental_persist_exits_witness :
+    (step 3 (run 3 {} (installDuringIncremental.take 6)) (.snapEnd .ok)).2 = "fatal-exit" ∧
+    (run 3 {} installDuringIncremental).db = [9] ∧
+    resolve (run 3 {} installDuringIncremental).snaps = some [9] ∧
+    (run 3 {} installDuringIncremental).pend = none := by decide
 
 /-! ### tie to the source (regenerated on every run) -/
 
